@@ -99,6 +99,7 @@ fn o_ev<const N: usize>(a: &[i8; N], b: &[i8; N]) -> f32 {
 /// Bound on the uninterpreted logarithm: the first `n` values it returned lie on the grid k/4, k = 0..16
 /// (consistent with the ghost axioms for arguments >= 1), which makes differences, squares and means exact.
 fn ln_results_on_grid(n: usize) {
+    unsafe { assert!(G_LN_N >= n); }        // the logarithm has been taken of (at least) n quantities
     for i in 0..n {
         let k: u8 = kani::any();
         kani::assume(k <= 16);
